@@ -30,7 +30,9 @@ def install(eng):
     b['method.find'] = _find
     b['method.join'] = _join
     b['method.copy'] = lambda eng, e, st, val, valexpr, args, kw: val
+    install_config(eng)
     b['heapq.heappush'] = _heappush
+    b['sys.setrecursionlimit'] = lambda eng, e, st, args, kw: PNone()
     b['heapq.heappop'] = _heappop
 
 
@@ -52,8 +54,8 @@ def _str(eng, e, st, args, kw):
         _use(eng, 'str(int) is injective')
         return ZV(TStr, T.sofint(v.term))
     if isinstance(v, ZV) and v.shape == TF:
-        _use(eng, 'str(float)')
-        return fresh(TStr, 'strf')
+        _use(eng, 'str(float) is repr(float)')
+        return ZV(TStr, s_offloat(v.term))
     raise Unsupported('str() of %r' % (v,))
 
 
@@ -285,3 +287,77 @@ def _heappop(eng, e, st, args, kw):
     st.assume(size(new.term) == size(heap.term) - 1)
     eng.assign(e.args[0], new, st)
     return unbox(r, sh.elem)
+
+
+# ------------------------------------------------------------------ configparser.ConfigParser (assumed contract)
+CONFIG_KEY = TTuple([TStr, TStr])
+CONFIG_OPTS = TDict(CONFIG_KEY, TStr)
+CONFIG_CLS = 'configparser:ConfigParser'
+s_offloat = z3.Function('s_offloat', T.F, T.Str)      # str(float) == repr(float)
+s_tofloat = z3.Function('s_tofloat', T.Str, T.F)      # float(str)
+s_tobool = z3.Function('s_tobool', T.Str, T.BoolS)
+
+
+def config_shape():
+    from .engine import ObjShape
+    return ObjShape(CONFIG_CLS, {'opts': CONFIG_OPTS})
+
+
+def float_roundtrip_axiom():
+    x = z3.Const('x!fr', T.F)
+    return z3.ForAll([x], s_tofloat(s_offloat(x)) == x, patterns=[s_offloat(x)])
+
+
+def _cfg_key(eng, args):
+    return CONFIG_KEY.mk(box(args[0], TStr), box(args[1], TStr))
+
+
+def _cfg_set(eng, e, st, args, kw):
+    obj = args[0]
+    _use(eng, 'ConfigParser.set/get/getfloat/getint/has_option behave as a map (section, option) -> str')
+    opts = obj.fields['opts']
+    new = ZV(CONFIG_OPTS, CONFIG_OPTS.put(opts.term, _cfg_key(eng, args[1:]), box(args[3], TStr)))
+    eng.assign(e.func.value, obj.with_field('opts', new), st)
+    return PNone()
+
+
+def _cfg_get_raw(eng, e, st, args):
+    obj = args[0]
+    _use(eng, 'ConfigParser.set/get/getfloat/getint/has_option behave as a map (section, option) -> str')
+    opts = obj.fields['opts']
+    k = _cfg_key(eng, args[1:])
+    eng.safety(st, CONFIG_OPTS.has(opts.term, k), 'config_option_present', e)
+    return CONFIG_OPTS.get(opts.term, k)
+
+
+def _cfg_get(eng, e, st, args, kw):
+    return ZV(TStr, _cfg_get_raw(eng, e, st, args))
+
+
+def _cfg_getfloat(eng, e, st, args, kw):
+    _use(eng, 'float(repr(x)) == x for every finite float x (shortest round-trip repr)')
+    st.assume(float_roundtrip_axiom())
+    return ZV(TF, s_tofloat(_cfg_get_raw(eng, e, st, args)))
+
+
+def _cfg_getint(eng, e, st, args, kw):
+    return ZV(TInt, s_toint(_cfg_get_raw(eng, e, st, args)))
+
+
+def _cfg_getboolean(eng, e, st, args, kw):
+    return ZV(TBool, s_tobool(_cfg_get_raw(eng, e, st, args)))
+
+
+def _cfg_has(eng, e, st, args, kw):
+    obj = args[0]
+    return ZV(TBool, CONFIG_OPTS.has(obj.fields['opts'].term, _cfg_key(eng, args[1:])))
+
+
+def install_config(eng):
+    b = eng.builtins
+    b[CONFIG_CLS + '.set'] = _cfg_set
+    b[CONFIG_CLS + '.get'] = _cfg_get
+    b[CONFIG_CLS + '.getfloat'] = _cfg_getfloat
+    b[CONFIG_CLS + '.getint'] = _cfg_getint
+    b[CONFIG_CLS + '.getboolean'] = _cfg_getboolean
+    b[CONFIG_CLS + '.has_option'] = _cfg_has
